@@ -312,10 +312,16 @@ func (mc *Chain) TryProposeBlock(ctx context.Context, mr *Round) {
 		return
 	}
 
-	var (
-		self = node.Self.Underlying()
-		rank = mr.GetMinerRank(self)
-	)
+	// a node's position (SetIndex) belongs to one magic block's pool, and node.Self is
+	// re-bound to the node of the latest magic block received: rank this miner by its
+	// node in the round's own pool, as the validators of its block do
+	self := mc.GetMiners(rn).GetNode(node.Self.Underlying().GetKey())
+	if self == nil {
+		logging.Logger.Info("try propose block - not a miner of the round",
+			zap.Int64("round", rn))
+		return
+	}
+	rank := mr.GetMinerRank(self)
 
 	if !mc.IsRoundGenerator(mr, self) {
 		logging.Logger.Info("TOC_FIX Not a generator", zap.Int64("round", rn),
